@@ -37,4 +37,10 @@ CHECKS = {
   "text": "For generated structures and generated residue lists (subsets, singletons, all residues, duplicates, phantom entries, insertion-coded residues) the reported groups must be exactly the option-free reported groups lying in listed residues with unchanged titratable flags; desolvation terms, buried counts, backbone determinants and non-iterative side-chain determinants of listed groups must equal the option-free run; Coulomb determinants may only name listed partners or ions; listing everything must equal no option (1e-9); phantom entries must change nothing (bit-exact).",
   "note": "The environment clause is not asserted for determinants towards partners penalised by covalent coupling or for covalently coupled groups (those legitimately differ between the two runs: coupling is only established among titratable groups). Blank chain ids are outside the domain. Open finding F5 (insertion-code twins) excluded by signature.",
  },
+ "C04": {
+  "level": "exploration",
+  "technique": "metamorphic property-based testing (Hypothesis): generated structures x exact grid motions (24 rotations x integer milli-Angstrom translations); records mapped back through the exact inverse motion",
+  "text": "Three layers: (1) for every generated structure, heavy-atom bond sets, protein/ion groups, centres, desolvation terms and buried counts are equal in both frames; (2) for amino-acid structures with hydrogens supplied (keep-protons) the entire record is equal within 1e-9; (3) when the program builds the hydrogens, hydrogen sets correspond one-to-one within a grid step and the moved-frame record equals the frame-0 keep-protons record obtained by feeding the moved frame's hydrogens back (the 'explained difference' oracle: the only allowed difference is the rounding of constructed hydrogens).",
+  "note": "Exact threshold ties (bond cut-offs in integer arithmetic; 15/20 A cut-offs within 1e-6 A) are excluded and counted. Open findings F8 (ambiguous C-terminal carbon) and F11 (frame-dependent rotamer for hydrogens on atoms with a single heavy neighbour) are excluded by signatures computed from the input with the all-pairs reference bond rule. Severely clashing threaded side chains (spurious bonds) are not generated for this property.",
+ },
 }
